@@ -639,7 +639,9 @@ def surrogate_history(ctx, rng):
     # external terminate()) while the optimizer works on the surrogate model
     holder: dict = {}
     SURR["n"] = SURR.get("n", 0) + 1
-    stop_outside = SURR["n"] % 3 == 1      # the first run of every shard
+    # (every other surrogate run, starting with the first one of the shards
+    # with an odd index: both kinds occur in the quick tier)
+    stop_outside = (SURR["n"] + ctx.shard_idx) % 2 == 0
     so_class = SurrogateOptimizer
     if stop_outside:
         from moptipy.algorithms.random_sampling import RandomSampling
